@@ -349,6 +349,14 @@ def t_murmur(ctx):
         ctx.exhaustive.append('MurmurHash3 on every length 0..67 x 6 seeds x 3 fill patterns')
         ctx.run({'kind': 'threads', 'filters': 6, 'seconds': 1.5 if ctx.quick else 8})
         ctx.exhaustive.append('6 separate filters filled with byte strings and outpoints from four threads at once')
+        # data lengths at the compact-size edge (252..256 bytes) and at the 36,000-byte cap, as wire filters and as filters built here
+        for L in (251, 252, 253, 254, 255, 256, 257, 35999, 36000):
+            data = bytes((i * 29 + L) % 256 for i in range(L))
+            ctx.run({'kind': 'wire', 'data': data.hex(), 'k': 1 + L % 50, 'tweak': L * 2654435761 % 2 ** 32, 'flags': L % 3, 'elems': ['00', 'ab' * 20, 'ff' * 36]})
+        for n_el in range(138, 146):
+            ctx.run({'kind': 'hist', 'n': n_el, 'rate': 0.001, 'tweak': 5, 'flags': 0,
+                     'ops': [['insert', '0102'], ['roundtrip'], ['insert_outpoint', '11' * 32, 7], ['roundtrip'], ['contains_inserted', 0]]})
+        ctx.exhaustive.append('filters of 251..257 and 35,999 / 36,000 data bytes (compact-size edge, size cap) from the wire and built here')
         # cap boundaries and the size-0 corner, deterministic
         for n_el, rate in ((1, 0.99), (1, 0.9), (2, 0.5), (20000, 1e-4), (20001, 1e-4), (30000, 1e-9), (3, 1e-9), (1, 1e-9), (300, 1e-9),
                            (20769, 0.001), (20770, 0.001), (3, 1e-15), (3, 1e-16), (3, 1e-20), (1, 1e-300), (7, 1e-14)):
